@@ -249,6 +249,25 @@ def run(ctx):
                            "explain": "UUID() re-computed from %d goroutines at once differs from the sequentially computed UUID of the same value" % r["goroutines"],
                            "failing_input": {"calls": r["calls"], "wrong": r["wrong"], "examples": r["examples"]}})
     ctx.cov["concurrent_uuid"] = [{k: v for k, v in r.items() if k != "examples"} for r in conc]
+    if thorough:
+        # the same concurrent run under the race detector
+        import subprocess
+        h = os.path.join(vcheck.VERIF, "harness")
+        exe = os.path.join(vcheck.BIN, "h_values_race")
+        args = ["go", "build", "-race", "-tags", "verif", "-o", exe]
+        if vcheck.REPO != "/repo":
+            args += ["-modfile=" + os.path.join(vcheck.WORK, "go.alt.mod")]
+        rc, out = vcheck.sh(args + ["./cmd/h_values"], cwd=h, env=vcheck.goenv(), timeout=900)
+        if rc != 0:
+            ctx.notes.append("race-enabled harness could not be built: " + out[-300:])
+        else:
+            p = subprocess.run([exe, "-mode", "uuidconc", "-n", "40"], cwd=vcheck.REPO, env=vcheck.goenv(), stdout=subprocess.PIPE,
+                               stderr=subprocess.PIPE, timeout=900, text=True)
+            races = p.stderr.count("WARNING: DATA RACE")
+            ctx.cov["race_detector"] = {"data_races": races, "exit": p.returncode}
+            if races > 0:
+                ctx.violation({"kind": "property-violated-by-implementation", "class": "data-race-in-uuid",
+                               "failing_input": {"data_races": races, "first_report": p.stderr[:1500]}})
     ctx.cov["evaluations"] = len(vals)
     nt = set()
     for (kd, j), p in zip(vals, pres):
